@@ -7,7 +7,6 @@ import (
 
 	cmtproto "github.com/cometbft/cometbft/proto/tendermint/types"
 
-	"github.com/oasisprotocol/oasis-core/go/common/cbor"
 	"github.com/oasisprotocol/oasis-core/go/common/crypto/hash"
 	consensusAPI "github.com/oasisprotocol/oasis-core/go/consensus/api"
 	cmtAPI "github.com/oasisprotocol/oasis-core/go/consensus/cometbft/api"
@@ -161,7 +160,6 @@ type blockProj struct {
 	hash          hash.Hash
 	sec           int64
 	nsec          int
-	root          string
 	rootNS        string
 	rootVersion   uint64
 	rootType      uint8
@@ -801,5 +799,3 @@ func (Engine) Execute(sc *core.Scenario, st *core.Stats) (*core.Violation, bool)
 	st.Sample(3, map[string]interface{}{"knobs": k, "first_ops": sc.Ops[:min(len(sc.Ops), 6)], "honest_accepted": rs.honestOK, "effective_mutants": rs.effective})
 	return nil, rs.honestOK >= 1 && rs.effective >= 5
 }
-
-var _ = cbor.Marshal
